@@ -1401,17 +1401,18 @@ Proof.
     rewrite E. ring.
 Qed.
 
-Lemma typed_region_canon route t x : (route <= 1)%nat -> typed_region route t x = RG_none -> canon_typed x = true.
+Lemma typed_region_canon route pp t x : (route <= 1)%nat -> typed_region route pp t x = RG_none -> canon_typed x = true.
 Proof.
   intros Hr H. unfold canon_typed, n_typed. rewrite !vshape_and.
   destruct route as [|[|]]; try lia; cbn [typed_region] in H; fr H;
     repeat match goal with E : _ = true |- _ => rewrite E; clear E end; reflexivity.
 Qed.
 
-Theorem typed_region_sound route t x :
-  (route <= 1)%nat -> validate x = true -> typed_region route t x = RG_none -> typed_model route t x = typed_expect route x.
+Theorem typed_region_sound route pp t x :
+  (route <= 1)%nat -> validate x = true -> typed_region route pp t x = RG_none ->
+  typed_model route pp t x = typed_expect route x.
 Proof.
-  intros Hr Hv H. pose proof (typed_region_canon _ _ _ Hr H) as Hc.
+  intros Hr Hv H. pose proof (typed_region_canon _ _ _ _ Hr H) as Hc.
   unfold typed_model. destruct (cls_of t) as [id fts].
   destruct route as [|[|]]; try lia; cbn [typed_expect]; rewrite pynorm_typed, typed_enc by assumption; reflexivity.
 Qed.
@@ -1516,12 +1517,12 @@ Proof. split; [vm_compute; reflexivity | witness]. Qed.
 Lemma typed_json_bytes_refuted :
   let x := PObj 0 [TBStr] [PBStr [x61]] in
   to_cbor x = Ok (plutus_bytes (abs x)) /\
-  (do j <- t_dict x; do y <- t_undict 0 [TBStr] j; to_cbor y) = Err E_Type.
+  (do j <- t_dict x; do y <- t_undict false 0 [TBStr] j; to_cbor y) = Err E_Type.
 Proof. split; vm_compute; reflexivity. Qed.
 Lemma typed_json_nested_refuted :
   let x := PObj 5 [TList (TList (TCls 2 [TInt]))] [PIList [PIList [PObj 2 [TInt] [PInt 3]]]] in
   to_cbor x = Ok (plutus_bytes (abs x)) /\
-  (do j <- t_dict x; do y <- t_undict 5 [TList (TList (TCls 2 [TInt]))] j; to_cbor y) = Err E_Deser.
+  (do j <- t_dict x; do y <- t_undict false 5 [TList (TList (TCls 2 [TInt]))] j; to_cbor y) = Err E_Deser.
 Proof. split; vm_compute; reflexivity. Qed.
 Lemma typed_long_in_container_refuted :
   let x := PObj 1 [TList TBytes] [PIList [PBytes b65]] in validate x = true /\ differs (to_cbor x) (abs x).
@@ -1625,7 +1626,7 @@ Proof.
   destruct route as [|[|[|[|[|[|[|[|[|]]]]]]]]]; try lia; reflexivity.
 Qed.
 Example ex_typed_region_sound :
-  typed_model 0 (TCls 1 T_vest) (fix_x (PIList [PInt 4; PInt 5; PInt 6]))
+  typed_model 0 false (TCls 1 T_vest) (fix_x (PIList [PInt 4; PInt 5; PInt 6]))
   = typed_expect 0 (fix_x (PIList [PInt 4; PInt 5; PInt 6])).
 Proof. apply typed_region_sound; [lia | reflexivity | reflexivity]. Qed.
 Example ex_typed_todict : t_dict (fix_x (PIList [PInt 4; PInt 5; PInt 6])) = Ok (json_of fix_d).
@@ -1656,7 +1657,7 @@ Proof.
 Qed.
 (* the JSON route of the same object, and a key without fields through from_cbor *)
 Example ex_objkey_json :
-  (do j <- t_dict x_objkey; do y <- t_undict 9 [TDict T_slot TIList; TDict T_cred TInt] j; to_cbor y) = Ok objkey_bytes.
+  (do j <- t_dict x_objkey; do y <- t_undict false 9 [TDict T_slot TIList; TDict T_cred TInt] j; to_cbor y) = Ok objkey_bytes.
 Proof. vm_compute. reflexivity. Qed.
 Example ex_objkey_hollow_rt :
   let x := PObj 5 [TDict (TCls 2 []) TInt] [PDict [(PObj 2 [] [], PInt 1)]] in
@@ -1667,3 +1668,206 @@ Example ex_objkey_decode_refuted :
   typed_from_cbor 9 [TDict T_slot TIList; TDict T_cred TInt] objkey_bytes = Err E_Type.
 Proof. vm_compute. reflexivity. Qed.
 
+(* ================================================================== long-bytes guard, whatever the declared type *)
+Definition long_bytes (v : pv) : bool := match v with PBytes b => (64 <? length b)%nat | _ => false end.
+
+Lemma long_bytes_exists vals :
+  existsb long_bytes vals = true <-> exists b, In (PBytes b) vals /\ (64 < length b)%nat.
+Proof.
+  rewrite existsb_exists. split.
+  - intros (v & Hin & Hl). destruct v; try discriminate. exists b. split; [assumption|]. unfold long_bytes in Hl. bconv. lia.
+  - intros (b & Hin & Hl). exists (PBytes b). split; [assumption|]. unfold long_bytes. destruct (64 <? length b)%nat eqn:F; [reflexivity | bconv; lia].
+Qed.
+
+Lemma guard_iff id fts vals :
+  (length fts <= length vals)%nat ->
+  (mk_obj id fts vals = Err E_InvArg <-> exists b, In (PBytes b) vals /\ (64 < length b)%nat)
+  /\ (mk_obj id fts vals = Ok (PObj id fts vals) <-> ~ exists b, In (PBytes b) vals /\ (64 < length b)%nat).
+Proof.
+  intros Hl. rewrite <- long_bytes_exists. unfold mk_obj.
+  destruct (length vals <? length fts)%nat eqn:Q; [bconv; lia|].
+  change (fun v => match v with PBytes b => (64 <? length b)%nat | _ => false end) with long_bytes.
+  destruct (existsb long_bytes vals); split; split; intros H; try reflexivity; try discriminate; try congruence.
+Qed.
+
+(* guard_ok (the oracle's premise) is the constructor's answer at every object node *)
+Lemma guard_ok_obj id fts fs :
+  (length fts <= length fs)%nat ->
+  guard_ok (PObj id fts fs) = negb (existsb long_bytes fs) && forallb guard_ok fs
+  /\ (existsb long_bytes fs = true -> mk_obj id fts fs = Err E_InvArg)
+  /\ (existsb long_bytes fs = false -> mk_obj id fts fs = Ok (PObj id fts fs)).
+Proof.
+  intros Hl. split; [reflexivity|]. unfold mk_obj.
+  destruct (length fs <? length fts)%nat eqn:Q; [bconv; lia|].
+  change (fun v => match v with PBytes b => (64 <? length b)%nat | _ => false end) with long_bytes.
+  split; intros ->; reflexivity.
+Qed.
+
+(* why the guard is needed: an object holding plain bytes over 64 bytes in a field -- of whatever declared type --
+   cannot encode to the reference bytes of its content: cbor2 writes the value as ONE definite string where the
+   ledger codec writes 64-byte chunks *)
+Lemma mapM_pointwise {A B} (f : A -> res B) (g : A -> B) l :
+  mapM f l = Ok (map g l) -> forall x, In x l -> f x = Ok (g x).
+Proof.
+  induction l as [|a l IH]; cbn [mapM map]; intros H x Hin; [destruct Hin|].
+  destruct (f a) as [y|] eqn:Fa; [|discriminate]. destruct (mapM f l) as [ys|] eqn:Fl; [|discriminate].
+  injection H as E1 E2. subst y ys. destruct Hin as [<-|Hin]; [assumption|]. now apply IH.
+Qed.
+
+Lemma mapM_length {A B} (f : A -> res B) l ys : mapM f l = Ok ys -> length ys = length l.
+Proof.
+  revert ys. induction l as [|a l IH]; cbn [mapM]; intros ys H; [injection H as <-; reflexivity|].
+  destruct (f a); [|discriminate]. destruct (mapM f l) as [zs|] eqn:Fl; [|discriminate].
+  injection H as <-. cbn. f_equal. now apply IH.
+Qed.
+
+Lemma guard_needed id fts fs b c :
+  In (PBytes b) fs -> (64 < length b)%nat ->
+  dumps (to_prim (PObj id fts fs)) = Ok c -> wf c -> wf (plutus_ref (abs (PObj id fts fs))) ->
+  enc c <> plutus_bytes (abs (PObj id fts fs)).
+Proof.
+  intros Hin Hb Hd Wc Wr E. unfold plutus_bytes in E. apply enc_inj in E; [|assumption|assumption]. subst c.
+  assert (Hne : fs <> []) by (intros ->; destruct Hin).
+  assert (K : mapM dumps (map to_prim fs) = Ok (map plutus_ref (map abs fs))).
+  { cbn [to_prim abs plutus_ref] in Hd. rewrite get_tag_spec in Hd.
+    destruct fs as [|f0 fr]; [congruence|]. cbn [map] in Hd. cbn [map].
+    destruct (tag_spec id) as [t|].
+    - cbn [dumps] in Hd. revert Hd. destruct (mapM dumps (to_prim f0 :: map to_prim fr)) as [ys|] eqn:M;
+        cbn [bind ref_seq]; intros Hd; [|discriminate]. congruence.
+    - cbn [dumps] in Hd. cbn [mapM] in Hd. cbn [dumps] in Hd. revert Hd.
+      destruct (mapM dumps (to_prim f0 :: map to_prim fr)) as [ys|] eqn:M; cbn [bind ref_seq]; intros Hd; [|discriminate].
+      congruence. }
+  rewrite !map_map in K.
+  assert (K' : mapM (fun v => dumps (to_prim v)) fs = Ok (map (fun v => plutus_ref (abs v)) fs)).
+  { clear -K. revert K. generalize (map (fun v => plutus_ref (abs v)) fs) as out. induction fs as [|a l IH]; cbn [map mapM]; intros out K; [assumption|].
+    destruct (dumps (to_prim a)); [|assumption]. destruct (mapM dumps (map to_prim l)) as [ys|] eqn:Fl.
+    - rewrite (IH ys eq_refl). assumption.
+    - discriminate. }
+  pose proof (mapM_pointwise _ _ _ K' _ Hin) as P. cbn [to_prim dumps abs plutus_ref] in P.
+  unfold ref_bytes in P. destruct (length b <=? 64)%nat eqn:L; [bconv; lia|]. discriminate.
+Qed.
+
+(* ================================================================== postponed annotations and from_dict *)
+Section JsonInd.
+  Variable P : json -> Prop.
+  Hypothesis HI : forall z, P (JInt z).
+  Hypothesis HB : forall b, P (JBytes b).
+  Hypothesis HL : forall xs, Forall P xs -> P (JList xs).
+  Hypothesis HM : forall kvs, Forall (fun kv => P (fst kv) /\ P (snd kv)) kvs -> P (JMap kvs).
+  Hypothesis HC : forall i fs, Forall P fs -> P (JCon i fs).
+  Fixpoint json_ind' (j : json) : P j :=
+    match j with
+    | JInt z => HI z
+    | JBytes b => HB b
+    | JList xs => HL xs ((fix go (l : list json) : Forall P l :=
+                     match l with [] => Forall_nil _ | y :: r => Forall_cons _ (json_ind' y) (go r) end) xs)
+    | JMap kvs => HM kvs ((fix go (l : list (json * json)) : Forall (fun kv => P (fst kv) /\ P (snd kv)) l :=
+                     match l with
+                     | [] => Forall_nil _
+                     | kv :: r => Forall_cons _ (conj (json_ind' (fst kv)) (json_ind' (snd kv))) (go r)
+                     end) kvs)
+    | JCon i fs => HC i fs ((fix go (l : list json) : Forall P l :=
+                     match l with [] => Forall_nil _ | y :: r => Forall_cons _ (json_ind' y) (go r) end) fs)
+    end.
+End JsonInd.
+
+Lemma mapM_ext_Forall {A B} (f g : A -> res B) l : Forall (fun x => f x = g x) l -> mapM f l = mapM g l.
+Proof. induction 1 as [|x l E _ IH]; cbn [mapM]; [reflexivity|]. now rewrite E, IH. Qed.
+
+Lemma erase_atomic fts : forallb atomic_ty fts = true -> map erase_ty fts = fts.
+Proof.
+  induction fts as [|t r IH]; cbn [forallb map]; intros H; [reflexivity|]. apply andb_true_iff in H as [Ht Hr].
+  unfold erase_ty at 1. rewrite Ht. f_equal. now apply IH.
+Qed.
+
+(* a class whose fields are all declared int / bytes / ByteString / IndefiniteList: from_dict does not depend on
+   whether the annotations are strings *)
+Lemma t_undict_pp_atomic : forall j id fts,
+  forallb atomic_ty fts = true -> t_undict true id fts j = t_undict false id fts j.
+Proof.
+  induction j as [z|b|xs IH|kvs IH|i fs IH] using json_ind'; intros id fts Ha; cbn [t_undict]; try reflexivity.
+  - f_equal. apply mapM_ext_Forall. eapply Forall_impl; [|exact IH]. intros x Hx. now apply Hx.
+  - f_equal. apply mapM_ext_Forall. eapply Forall_impl; [|exact IH]. intros [k v] [Hk Hv]. cbn [fst snd] in *.
+    now rewrite (Hk id fts Ha), (Hv id fts Ha).
+  - destruct (negb (i =? id)); [reflexivity|]. f_equal.
+    match goal with |- ?F fs fts = ?F' fs fts =>
+      assert (G : forall ts, forallb atomic_ty ts = true -> F fs ts = F' fs ts) end.
+    { induction IH as [|f fr Hf _ IHr]; intros ts Hts; [reflexivity|]. destruct ts as [|t tr]; [reflexivity|].
+      cbn [forallb] in Hts. apply andb_true_iff in Hts as [Ht Htr]. rewrite (IHr tr Htr).
+      cbv iota. unfold erase_ty. rewrite Ht. destruct t; try discriminate Ht; now rewrite (Hf id fts Ha). }
+    now rewrite (G fts Ha).
+Qed.
+
+Lemma typed_model_pp_atomic route id fts x :
+  forallb atomic_ty fts = true -> typed_model route true (TCls id fts) x = typed_model route false (TCls id fts) x.
+Proof.
+  intros Ha. unfold typed_model. cbn [cls_of].
+  destruct route as [|[|[|[|[|[|[|[|[|[|]]]]]]]]]]; try reflexivity;
+    (destruct (t_dict (pynorm x)) as [j|]; [|reflexivity]); now rewrite t_undict_pp_atomic.
+Qed.
+
+(* ----- witnesses: the guard refuses long bytes in a Union / Datum / Dict[..] field exactly as in a bytes field; were
+   the object to exist it would pass validate() and write other bytes than the ledger codec; decoding the
+   reference bytes of that content with the class is refused as well ----- *)
+Definition T_in := TCls 1 [TInt].
+Definition guard_witness (ft : ty) : Prop :=
+  mk_obj 0 [ft] [PBytes b65] = Err E_InvArg
+  /\ validate (PObj 0 [ft] [PBytes b65]) = true
+  /\ differs (to_cbor (PObj 0 [ft] [PBytes b65])) (Constr 0 [Bs b65]).
+Lemma guard_witnesses :
+  guard_witness TBytes /\ guard_witness TDatum /\ guard_witness (TUnion [TBytes; T_in])
+  /\ guard_witness (TUnion [T_in; TBytes]) /\ guard_witness (TDict TInt TInt).
+Proof. repeat split; try (vm_compute; reflexivity); witness. Qed.
+Lemma guard_decode_witnesses :
+  typed_from_cbor 0 [TBytes] (plutus_bytes (Constr 0 [Bs b65])) = Err E_InvArg
+  /\ typed_from_cbor 0 [TDatum] (plutus_bytes (Constr 0 [Bs b65])) = Err E_InvArg
+  /\ typed_from_cbor 0 [TUnion [T_in; TBytes]] (plutus_bytes (Constr 0 [Bs b65])) = Err E_InvArg
+  /\ typed_from_cbor 0 [TUnion [TBStr; T_in]] (plutus_bytes (Constr 0 [Bs b65])) = Ok (PObj 0 [TUnion [TBStr; T_in]] [PBStr b65]).
+Proof. repeat split; vm_compute; reflexivity. Qed.
+Example ex_guard_iff : mk_obj 0 [TDatum; TInt] [PBytes b65; PInt 1] = Err E_InvArg
+                       /\ mk_obj 0 [TDatum; TInt] [PBytes [x61]; PInt 1] = Ok (PObj 0 [TDatum; TInt] [PBytes [x61]; PInt 1]).
+Proof.
+  split.
+  - apply (guard_iff 0 [TDatum; TInt] [PBytes b65; PInt 1]); [cbn; lia|]. exists b65. split; [now left | cbn; lia].
+  - apply (guard_iff 0 [TDatum; TInt] [PBytes [x61]; PInt 1]); [cbn; lia|].
+    intros (b & [E|[E|[]]] & Hl); [injection E as <-; cbn in Hl; lia | discriminate E].
+Qed.
+Lemma wf_guard_c : wf (CTag 121 (CAi [CB b65])).
+Proof. vm_compute. repeat split; reflexivity. Qed.
+Lemma chunks_b65 : chunks 64 b65 = [repeat x01 64; [x01]].
+Proof. vm_compute. reflexivity. Qed.
+Lemma wf_guard_ref : wf (plutus_ref (abs (PObj 0 [TDatum] [PBytes b65]))).
+Proof.
+  change (wf (CTag 121 (CAi [CBi (chunks 64 b65)]))). rewrite chunks_b65.
+  split; [reflexivity|]. split; [|exact Logic.I]. cbn [wf].
+  constructor; [vm_compute; reflexivity|]. constructor; [vm_compute; reflexivity|]. constructor.
+Qed.
+Example ex_guard_needed :
+  let x := PObj 0 [TDatum] [PBytes b65] in
+  exists c, dumps (to_prim x) = Ok c /\ wf c /\ wf (plutus_ref (abs x)) /\ enc c <> plutus_bytes (abs x).
+Proof.
+  exists (CTag 121 (CAi [CB b65])). split; [vm_compute; reflexivity|].
+  split; [exact wf_guard_c|]. split; [exact wf_guard_ref|].
+  apply (guard_needed 0 [TDatum] [PBytes b65] b65); [now left | cbn; lia | vm_compute; reflexivity | exact wf_guard_c | exact wf_guard_ref].
+Qed.
+
+(* ----- refuted on the pinned tree: the JSON route of a Union field holding a primitive, and of a class declared
+   under postponed annotations with a class-typed field (before any from_cbor call) ----- *)
+Lemma typed_json_union_prim_refuted :
+  let x := PObj 0 [TUnion [TBytes; T_in]] [PBytes [x61]] in
+  let y := PObj 0 [TUnion [TBytes; TInt]] [PBytes [x61]] in
+  to_cbor x = Ok (plutus_bytes (abs x))
+  /\ (do j <- t_dict x; do z <- t_undict false 0 [TUnion [TBytes; T_in]] j; to_cbor z) = Err E_Key
+  /\ to_cbor y = Ok (plutus_bytes (abs y))
+  /\ (do j <- t_dict y; do z <- t_undict false 0 [TUnion [TBytes; TInt]] j; to_cbor z) = Err E_Deser.
+Proof. repeat split; vm_compute; reflexivity. Qed.
+Lemma typed_json_postponed_refuted :
+  let x := PObj 0 [T_in] [PObj 1 [TInt] [PInt 1]] in
+  to_cbor x = Ok (plutus_bytes (abs x))
+  /\ (do j <- t_dict x; do z <- t_undict false 0 [T_in] j; to_cbor z) = Ok (plutus_bytes (abs x))
+  /\ (do j <- t_dict x; do z <- t_undict true 0 [T_in] j; to_cbor z) = Err E_Deser.
+Proof. repeat split; vm_compute; reflexivity. Qed.
+Example ex_pp_atomic :
+  let x := PObj 7 [TInt; TBStr; TIList] [PInt 1; PBStr b65; PIList [PInt 2]] in
+  typed_model 5 true (TCls 7 [TInt; TBStr; TIList]) x = OB (Ok (plutus_bytes (abs x))).
+Proof. cbv zeta. rewrite typed_model_pp_atomic by reflexivity. vm_compute. reflexivity. Qed.
